@@ -166,8 +166,15 @@ class Lab:
             return r
 
         def flatten(*x, **k):
-            r = self.ndarray(f"{tag}.flatten()", items, dtype, "C")
-            r.origin = ("flat", a)
+            # the elements in INDEX order (order 'C', the default), or in the order they lie in memory ('K' / 'A': the
+            # same thing for a C-contiguous array only), or in Fortran order
+            order = x[0] if x else k.get("order", "C")
+            if order not in ("C", "K", "A", "F"):
+                raise AnalysisError(f"B1e: flatten/ravel(order={order!r})")
+            r = self.ndarray(f"{tag}.flatten({'' if order == 'C' else order})", items, dtype, "C")
+            # ('K' keeps the axes in the order of decreasing stride: index order unless the array is Fortran-like)
+            in_index_order = order == "C" or (order in ("K", "A") and layout != "F") or (ndim <= 1 and layout == "C")
+            r.origin = ("flat", a) if in_index_order else ("memorder", a, order)
             return r
 
         a.attrs["astype"] = Builtin("astype", astype)
@@ -212,6 +219,20 @@ class Lab:
         return res
 
 
+def _element_order_lost(v):
+    """the step of the origin chain of abstract data at which the elements stop being in index order (None: never)"""
+    seen = 0
+    while seen < 12:
+        seen += 1
+        o = getattr(v, "origin", None)
+        if o is None:
+            return None
+        if isinstance(o, tuple) and o and o[0] == "memorder":
+            return f"{o[1].name}.ravel/flatten(order='{o[2]}') of a {o[1].layout}-layout array lists the elements in memory order, not in index order"
+        v = o[1] if isinstance(o, tuple) and o and o[0] in ("converted", "flat") else o[0] if isinstance(o, tuple) else o
+    return None
+
+
 def _root(v):
     """(root object, byte offset inside it or None, converted?) of abstract data"""
     conv = False
@@ -225,7 +246,7 @@ def _root(v):
         if isinstance(o, tuple) and o and o[0] == "converted":
             conv = o[2]
             v = o[1]
-        elif isinstance(o, tuple) and o and o[0] == "flat":
+        elif isinstance(o, tuple) and o and o[0] in ("flat", "memorder"):
             v = o[1]
         elif isinstance(o, tuple):
             v, off = o[0], off + o[1]
@@ -234,7 +255,7 @@ def _root(v):
     return v, off, conv
 
 
-@rule("B1e", ["C13", "C04", "C09"], "CPU buffer copy primitives, evaluated on an abstract storage for every kind of source: exact extents, no resize, copies vs views")
+@rule("B1e", ["C13", "C04", "C09", "C01"], "CPU buffer copy primitives, evaluated on an abstract storage for every kind of source: exact extents, no resize, copies vs views")
 def b1e(cx):
     m = cx.m
     OFF, SOFF, DOFF, NB = (Sym(Poly.atom(x)) for x in ("offset", "source_offset", "dest_offset", "nbytes"))
@@ -375,6 +396,8 @@ def b1e(cx):
                         why = "the stored data is not the whole value"
                     elif bool(conv) != convert or (convert and conv is not dest):
                         why = "dtype conversion missing / not to the destination dtype" if convert else "converted although the dtypes agree"
+                    elif _element_order_lost(v):
+                        why = "the bytes stored are not the value's elements in index (row-major) order: " + _element_order_lost(v)
                 cx.check(not why, None, construct=f"{clsname}.update_from_nplike(offset, {'float32' if convert else 'float64'}, <float64 array, {layout} layout>)", detail="the value's bytes (converted first when the dtypes differ) at [offset, offset + nbytes)",
                          bad_detail=why, anchor=anchor + ".update_from_nplike", sub="update_from_nplike")
     cx.need(n >= 30, f"only {n} primitive cases evaluated")
